@@ -348,6 +348,9 @@ def run(tier: str, seed: int) -> Report:
     # ---- 6. binding self-tests: (i) corrupted traces, (ii) mutated servers -- one TLC run
     n_real = len(corpus.traces)
     corrupted = corrupt_traces(corpus, verdicts)
+    if len(corrupted) < 4 and not rep.violations:
+        raise Machinery(f"binding self-test: no accepted exchange to corrupt for some field "
+                        f"(have {[k for k, _c in corrupted]})")
     mutants = asyncio.run(drive_mutants(seed, corpus))
     sv = corpus.validate([c for _k, c in corrupted] + [t for ts in mutants.values() for t in ts], parallel=1,
                          steps_per_batch=10**9)
@@ -372,9 +375,11 @@ def corrupt_traces(corpus: E.Corpus, verdicts: dict[int, tuple[str, list[tuple[i
     """(i) one field of an accepted trace corrupted, four ways: TLC must reject each."""
     want: dict[str, Any] = {"nrc": None, "state": None, "unsuppress": None, "suppress-negative": None}
     for t in corpus.traces:
-        if verdicts[t["id"]][0] != "ok" or t["B"] != sorted(E.ALL) or t["steps"][0]["pk"] == "unknown" or t["indep"]:
+        if t["B"] != sorted(E.ALL) or t["steps"][0]["pk"] == "unknown" or t["indep"]:
             continue
-        for i, s in enumerate(t["steps"]):
+        bad = verdicts[t["id"]][1]
+        upto = (min(j for j, _l in bad) - 1) if bad else len(t["steps"])   # accepted prefix
+        for i, s in enumerate(t["steps"][:upto]):
             neg = s["vk"] == "bytes" and s["vn"] == 3 and s["vb"][0] == 0x7F
             if want["nrc"] is None and neg and s["vb"][2] in (0x11, 0x7F, 0x12, 0x7E, 0x13):
                 c = json.loads(json.dumps(t)); c["steps"] = c["steps"][: i + 1]
@@ -394,11 +399,10 @@ def corrupt_traces(corpus: E.Corpus, verdicts: dict[int, tuple[str, list[tuple[i
                 want["suppress-negative"] = c
         if all(v is not None for v in want.values()):
             break
-    missing = [k for k, v in want.items() if v is None]
-    if missing:
-        raise Machinery(f"binding self-test: no accepted trace to corrupt for {missing}")
     out = []
     for j, (k, c) in enumerate(want.items()):
+        if c is None:
+            continue
         c["id"] = 10**7 + j
         out.append((k, c))
     return out
